@@ -22,7 +22,10 @@ FqFileLines(st) == FlattenSeq([i \in 1..Len(st) |-> <<<<AT>> \o st[i].head, st[i
 \* crlf: set of line numbers that end in CRLF; fin: terminator after the last line
 Render(ls, crlf, fin) ==
   FlattenSeq([i \in 1..Len(ls) |-> ls[i] \o (IF i < Len(ls) \/ fin THEN (IF i \in crlf THEN <<CR, LF>> ELSE <<LF>>) ELSE <<>>)])
+\* (the fifth rendering: a CRLF file cut one byte short - the CR of the last terminator is there, its LF is not; the last line
+\* still ends at the end of the input and its CR belongs to the line ending, not to the field)
 Uniform(ls) == LET all == 1..Len(ls) IN <<Render(ls, {}, TRUE), Render(ls, {}, FALSE), Render(ls, all, TRUE), Render(ls, all, FALSE)>>
+                                       \o (IF ls[Len(ls)] # <<>> THEN <<Render(ls, all, FALSE) \o <<CR>>>> ELSE <<>>)
 Mixed(ls) == IF Len(ls) > 4 THEN <<>>
              ELSE SetToSeq({Render(ls, c, TRUE) : c \in SUBSET (1..Len(ls))} \cup {Render(ls, c, FALSE) : c \in SUBSET (1..Len(ls))})
 \* blank lines before the first FASTA record / after the last record belong to the documented formats
